@@ -689,6 +689,7 @@ func unequalWrites(run *evid.Run, idx int) {
 	}
 	r0, r1 := rec.New(m0), rec.New(m1)
 	env := model.NewEnv(ociunify.New(r0.Interface(), r1.Interface(), &ociunify.Options{ReadPolicy: ociunify.ReadPolicy(idx % 2)}))
+	env.PartlyRead = idx%3 == 2
 	// what either member knows
 	var ops []*model.Op
 	for mi, mreg := range []ociregistry.Interface{m0, m1} {
@@ -782,6 +783,7 @@ func writeHistory(run *evid.Run, idx int) {
 	r0, r1 := rec.New(m0), rec.New(m1)
 	pol := ociunify.ReadPolicy(idx % 2)
 	env := model.NewEnv(ociunify.New(r0.Interface(), r1.Interface(), &ociunify.Options{ReadPolicy: pol}))
+	env.PartlyRead = idx%3 == 1 // blobs pushed from in-memory readers of which a header was already consumed
 	d0, d1 := model.NewEnv(m0), model.NewEnv(m1)
 	m := model.New(false)
 	inject := idx%3 == 2
@@ -889,7 +891,16 @@ func writeHistory(run *evid.Run, idx int) {
 			}
 			run.Count("writer_ops_checked", 1)
 		}
-		m.Apply(op, out) // steers generation only
+		cs := m.Apply(op, out) // steers generation; one kind of complaint is this check's business:
+		// a write that a registry of the members' kind accepts (the reference model says so, and the members
+		// are healthy and equal) has to be applied by the unifier, not refused
+		if !faulted && !out.OK && (op.Kind == "PushBlob" || op.Kind == "PushManifest" || op.Kind == "MountBlob") {
+			for _, c := range cs {
+				if c.Oracle == "semantics" && strings.Contains(c.Key, "/rejected/") {
+					run.Violation("replicate/write-each-member-accepts-not-applied/"+op.Kind, fmt.Sprintf("%s is acceptable to either member on its own (reference model), the members are healthy and equal, yet through the unifier it fails: %s", op, out.Err), w)
+				}
+			}
+		}
 		// members stay observably equal
 		if i%6 == 5 || i == 39 {
 			run.Count("member_snapshots", 1)
